@@ -16,6 +16,21 @@ from the log of primitive events alone (`Target/Spec.lean`).  `cfg` says which c
 -/
 namespace Morfuse.Target
 
+/-! ## a concrete reachable state for the non-vacuity examples -/
+
+/-- objects 1 and 3 named n1 (= 2) in that order, object 2 named n2 (= 3), nobody named n3 (= 4) -/
+def demoStmts : List Stmt := [.act (.spawn 2), .act (.spawn 3), .act (.spawn 2)]
+
+def demoOf (cfg : Cfg) : State :=
+  match run cfg demoStmts init with
+  | .ok s => s
+  | .ub => init
+
+def demo : State := demoOf {}
+
+example : Reachable {} demo := ⟨demoStmts, rfl⟩
+example : bearers demo.log 2 = [1, 3] ∧ bearers demo.log 3 = [2] ∧ bearers demo.log 4 = [] := by decide
+
 /-! ## what the specification means -/
 
 /-- The specification read declaratively: `o` bears `n` iff `o` has been spawned and not destroyed
@@ -26,6 +41,9 @@ theorem C15_bearers_iff {cfg : Cfg} {s : State} (h : Reachable cfg s) (o : ObjId
   have i := h.good.inv
   refine ⟨?_, i.nodup n⟩
   rw [i.last o n, i.alive_log o]
+
+example : (1 ∈ bearers demo.log 2 ↔ (aliveIn demo.log 1 = true ∧ lastName demo.log 1 = some 2)) ∧
+    (bearers demo.log 2).Nodup := C15_bearers_iff (cfg := {}) ⟨demoStmts, rfl⟩ 1 2
 
 /-- Naming order: a (re)naming event puts the object last under its new name; the relative order
     of everybody else is untouched (and a destruction only removes). -/
@@ -49,6 +67,12 @@ theorem C15_denotes {cfg : Cfg} {s : State} (h : Reachable cfg s) (n : Name) :
        (cfg.snapshot = false ∧ ∃ l, s.tbl n = some l ∧ s.lists l = some ((bearers s.log n).map some) ∧
           evalTarget cfg s n = .cont l))) :=
   evalTarget_spec cfg h.good.inv n
+
+/-- non-vacuity: all three kinds occur in one reachable state (tree as found: the array is the
+    table's own list, entry 1) and with the repair (a copy) -/
+example : evalTarget {} demo 4 = .obj none ∧ evalTarget {} demo 3 = .obj (some 2) ∧
+    evalTarget {} demo 2 = .cont 1 ∧ demo.lists 1 = some [some 1, some 3] := by decide
+example : evalTarget { snapshot := true } (demoOf { snapshot := true }) 2 = .arr [some 1, some 3] := by decide
 
 /-- The same through what a script can observe: `.size` and the elements `[1] .. [size]` of `$name`
     are the number of bearers and the bearers in naming order; no element is NULL; reading them is
@@ -134,6 +158,10 @@ theorem C15_rename_moves {cfg : Cfg} {s : State} (h : Reachable cfg s) {o : ObjI
     rw [hb, if_neg h1] at hm
     exact (mem_filter_ne.mp hm).2 rfl
 
+/-- non-vacuity: object 1 (first of n1) renamed to n2 goes last in n2; n1 keeps 3 -/
+example : demo.alive 1 = true ∧ bearers (setTargetName demo 1 3).log 3 = [2, 1] ∧
+    bearers (setTargetName demo 1 3).log 2 = [3] := by decide
+
 /-- **Destroying removes.**  `o remove` / `delete` on a live object removes `o` from the group of
     its name and from no other group (it is in no other); every other object stays, in order; `o`
     is dead afterwards and bears nothing. -/
@@ -156,6 +184,10 @@ theorem C15_remove_removes {cfg : Cfg} {s : State} (h : Reachable cfg s) {o : Ob
     exact filter_ne_of_not_mem (fun hm => h2 (i.bearer m o hm).2.1.symm)
   · rw [(destroy_fields s o).1]; simp
   · intro x hx; rw [(destroy_fields s o).1, upd_other _ _ hx]
+
+/-- non-vacuity -/
+example : demo.alive 3 = true ∧ bearers (destroy demo 3).log 2 = [1] ∧ bearers (destroy demo 3).log 3 = [2] := by
+  decide
 
 /-! ## fan-out -/
 
@@ -220,6 +252,13 @@ theorem C15_fanout_once {cfg : Cfg} {s s' : State} (h : Reachable cfg s) {n : Na
     intro o ho
     exact cov o (by rw [hrs]; exact List.mem_map.mpr ⟨o, ho, rfl⟩) (i.alive_lt o (i.bearer n o ho).1)
 
+/-- non-vacuity: `$n1 thread h` where `h` deletes object 3: object 1 is reached, object 3 is dead
+    before its turn and is skipped; with a handler that renames `self` away both are reached -/
+example : ∃ s', stmt {} demo (.fan (.name 2) [.hello, .delete (.obj 3)]) = .ok s' ∧
+    visits (s'.log.drop demo.log.length) = [1] ∧ s'.alive 3 = false := ⟨_, rfl, by decide, by decide⟩
+example : ∃ s', stmt {} demo (.fan (.name 2) [.setName .self 4]) = .ok s' ∧
+    visits (s'.log.drop demo.log.length) = [1, 3] ∧ bearers s'.log 4 = [1, 3] := ⟨_, rfl, by decide, by decide⟩
+
 /-- When the handler destroys nothing (in particular for the `targetname` command, and for any
     thread handler without a `remove`), the command is executed on *all* bearers, each exactly
     once, in naming order. -/
@@ -260,6 +299,9 @@ theorem C15_fanout_all_when_no_delete {cfg : Cfg} {s s' : State} (h : Reachable 
     rw [v, List.filterMap_map]
     simp only [Function.comp_def, id, List.filterMap_some]
     exact List.filter_eq_self.mpr (fun o ho => (i.bearer n o ho).1)
+
+example : ∃ s', stmt {} demo (.fanName (.name 2) 3) = .ok s' ∧
+    visits (s'.log.drop demo.log.length) = [1, 3] ∧ bearers s'.log 3 = [2, 1, 3] := ⟨_, rfl, by decide, by decide⟩
 
 /-- **Field assignment, with the repair.**  `$name.fld = x` assigns the field on every bearer,
     each exactly once, in naming order, and on nobody else. -/
@@ -309,6 +351,9 @@ theorem C15_fanout_once_field {cfg : Cfg} (hfix : cfg.fieldFan = true) {s s' : S
       rw [key o]
       simp
 
+example : ∃ s', stmt { fieldFan := true } (demoOf { fieldFan := true }) (.fieldSet (.name 2) 7) = .ok s' ∧
+    s'.fld 1 = 7 ∧ s'.fld 3 = 7 ∧ s'.fld 2 = 0 := ⟨_, rfl, by decide, by decide, by decide⟩
+
 /-- **Field assignment, tree as found — the clause fails.**  With two (or more) bearers
     `$name.fld = x` is rejected (`Cannot cast 'array' to 'listener'`): nothing is assigned, nobody
     is reached.  This is the negation of the property's "field assignments applied to `$name` reach
@@ -322,6 +367,11 @@ theorem C15_fanout_field_fails_unrepaired {cfg : Cfg} (hraw : cfg.fieldFan = fal
   · rw [hb] at h2; simp at h2
   · simp [stmt, fieldSet, evalSrc, he, hraw]
   · simp [stmt, fieldSet, evalSrc, he, hraw]
+
+/-- the witness: two objects bear n1, `$n1.fld = 7` reaches neither -/
+example : 2 ≤ (bearers demo.log 2).length ∧
+    (∃ s', stmt {} demo (.fieldSet (.name 2) 7) = .ok s' ∧ s'.fld 1 = 0 ∧ s'.fld 3 = 0 ∧ visits (s'.log.drop demo.log.length) = []) :=
+  ⟨by decide, _, rfl, by decide, by decide, by decide⟩
 
 /-! ## captured values -/
 
@@ -344,6 +394,9 @@ def d16Witness : List Stmt :=
     the real code under ASan + H2 by the check (use-after-poison in `ScriptVariable::size`). -/
 theorem C15_captured_value_unsafe_unrepaired : run {} d16Witness init = .ub := by
   rfl
+
+/-- the same history is safe with the repair -/
+example : ∃ s, run { snapshot := true } d16Witness init = .ok s := C15_captured_value_safe rfl _
 
 /-- Weak references held by script values (a captured single object, the elements of a captured
     array) never designate a destroyed object, in every reachable state of either variant. -/
